@@ -6,8 +6,11 @@ open Taskpool
 def parseCb : String → CbSpec
   | "p" => .plain | "x" => .raises (.user 1) | "c" => .coro | _ => .none
 
+/-- worker mode: `r` returns at once, `x` raises at once, `g` gated (one suspension point), `g1` / `g2` / … gated with
+that many *further* suspension points (absent = 0, so older op lines keep their meaning) -/
 def parseWs (m sw : String) : WSpec :=
-  { mode := match m with | "r" => .retNow | "x" => .raiseNow (.user 2) | _ => .gated, swallow := sw == "1", resume := sw == "2" }
+  { mode := match m with | "r" => .retNow | "x" => .raiseNow (.user 2) | _ => .gated, swallow := sw == "1", resume := sw == "2",
+    awaits := if m.startsWith "g" then (m.drop 1).toString.toNat?.getD 0 else 0 }
 
 /-- op lines are blank-separated: the empty string (a legal group name) travels as `''` -/
 def decName (s : String) : String := if s == "''" then "" else s
